@@ -1,16 +1,25 @@
 #!/bin/bash
 # Re-runs every kept seeded change: applies seeded/<id>/patch.diff to a scratch worktree of /repo HEAD,
 # runs the quick checks recorded in meta.json against it, and reports whether each still fires.
+# usage: tools/run_seeded.sh [id-prefix] ; JOBS=4 (changes run concurrently, each check with QV_PROCS=16/JOBS)
 cd "$(dirname "$0")/.."
-ok=0; bad=0
+JOBS=${JOBS:-4}
+export QV_PROCS=${QV_PROCS:-$((16 / JOBS))}
+one() {
+  d=$1; id=$(basename $d)
+  checks=$(/venv/bin/python -c "import json;print(' '.join(json.load(open('$d/meta.json'))['detected_by_quick_checks']))")
+  out=$(tools/mutant.sh detect $(pwd)/$d/patch.diff rs-$id $checks 2>&1)
+  if echo "$out" | grep -q "APPLY FAILED"; then echo "$id: PATCH DOES NOT APPLY"; return; fi
+  miss=""
+  for c in $checks; do echo "$out" | grep -q "VIOLATION property=$c" || miss="$miss $c"; done
+  if [ -z "$miss" ]; then echo "$id: caught by $checks"; else echo "$id: NOT CAUGHT by$miss"; fi
+}
+export -f one
+tmp=$(mktemp)
 for d in seeded/*/; do
   id=$(basename $d)
   [ -n "$1" ] && [[ "$id" != $1* ]] && continue
-  checks=$(/venv/bin/python -c "import json;print(' '.join(json.load(open('$d/meta.json'))['detected_by_quick_checks']))")
-  out=$(tools/mutant.sh detect $(pwd)/$d/patch.diff rs-$id $checks 2>&1)
-  if echo "$out" | grep -q "APPLY FAILED"; then echo "$id: PATCH DOES NOT APPLY"; bad=$((bad+1)); continue; fi
-  miss=""
-  for c in $checks; do echo "$out" | grep -q "VIOLATION property=$c" || miss="$miss $c"; done
-  if [ -z "$miss" ]; then echo "$id: caught by $checks"; ok=$((ok+1)); else echo "$id: NOT CAUGHT by$miss"; bad=$((bad+1)); fi
-done
+  echo "${d%/}"
+done | xargs -P $JOBS -I{} bash -c 'one {}' | tee $tmp
+ok=$(grep -c ": caught by" $tmp); bad=$(grep -vc ": caught by" $tmp); rm -f $tmp
 echo "seeded changes caught: $ok, not caught / not applicable: $bad"
